@@ -1,3 +1,114 @@
-(* Further handlers (driver traces, engines); extended below. *)
-let handle (line : string) (_kind : string) (_args : string list) (_obs : string) : unit =
-  failwith ("unknown case kind: " ^ line)
+(* End-to-end UCI sessions (C04 sequential part): position / go depth d, each go run to completion. *)
+open Model
+open Common
+open Conv
+
+let split_on c s = String.split_on_char c s
+let split_str (sep : string) (s : string) : string list = Str.split_delim (Str.regexp_string sep) s
+let ws s = List.filter (fun w -> w <> "") (split_on ' ' s)
+let str_of_codes = Dispatch4.str_of_codes
+let string_of_str (s : n list) : string = String.concat "" (List.map (fun x -> String.make 1 (Char.chr (int_of_n x land 255))) s)
+
+let sq_name (s : n) : string =
+  let i = int_of_n s in
+  Printf.sprintf "%c%c" (Char.chr (97 + (7 - (i land 7)))) (Char.chr (49 + (i lsr 3)))
+let uci_move (m : move) : string =
+  sq_name m.mfrom ^ sq_name m.mto ^ (match int_of_n m.mpromo with 5 -> "q" | 4 -> "r" | 3 -> "n" | 2 -> "b" | _ -> "")
+
+(* printPV's score field *)
+let score_tok (s : score) : string =
+  match s.sty with
+  | Heuristic ->
+    let f = Int32.float_of_bits (Int32.of_int (int_of_z s.sbits)) in
+    Printf.sprintf "cp:%d" (int_of_float (f *. 100.0))
+  | _ ->
+    let i = inc s in
+    let m = (match i.sty with MateInX -> int_of_z i.smate | _ -> 0) in
+    (* Go int8 division truncates toward zero *)
+    Printf.sprintf "mate:%d" (if m >= 0 then m / 2 else - ((- m) / 2))
+
+let handle_ucigo line args obs =
+  match args with
+  | hash :: q :: "::" :: lines ->
+    let zt = Dispatch4.zt0 () in
+    let hashmb = (match split_on '=' hash with [_; v] -> int_of_string v | _ -> failwith "hash") in
+    let use_q = (q = "q=1") in
+    let mk_table (h : n) : ttv = if int_of_n h = 0 then NoTT else (match new_table (n_of_int 1024) with Some t -> TableTT t | None -> NoTT) in
+    let e0 = Dispatch4.empty_engine () in
+    let u = ref (Some { u_d = { d_eng = e0; d_last = [] }; u_tt = mk_table (n_of_int hashmb); u_hash = n_of_int hashmb; u_depth = N0 }) in
+    let observed = List.map String.trim (split_str " | " obs) in
+    if List.length observed <> List.length lines then failwith "ucigo: obs count";
+    let last_pos = ref None in
+    List.iteri (fun i ltok ->
+        let l = str_of_codes ltok in
+        let text = string_of_str l in
+        let o = List.nth observed i in
+        let words = ws text in
+        (match words with
+         | "position" :: _ ->
+           u := (match !u with Some x -> u_position zt mk_table x l | None -> None);
+           last_pos := Some l;
+           let m = (match !u with Some _ -> "ok" | None -> "EXIT") in
+           if m <> o then report_mismatch line (Printf.sprintf "line#%d: %s" i m)
+         | ["ucinewgame"] ->
+           u := (match !u with Some x -> Some { x with u_d = cmd_ucinewgame x.u_d } | None -> None);
+           if o <> (match !u with Some _ -> "ok" | None -> "EXIT") then report_mismatch line (Printf.sprintf "line#%d: ok" i)
+         | ["go"; "depth"; d] ->
+           (match !u with
+            | None -> if o <> "EXIT" then report_mismatch line (Printf.sprintf "line#%d: EXIT" i)
+            | Some x ->
+              let (outs, x') = go_depth zt use_q Dispatch3.qfuel x (nat_of_int (int_of_string d)) in
+              u := Some x';
+              let toks = List.filter_map (fun oo ->
+                  match oo with
+                  | OInfo (((dep, _), sc), pv) ->
+                    Some (Printf.sprintf "d%d:%s:%s" (int_of_nat dep) (score_tok sc) (if pv = [] then "-" else String.concat ";" (List.map uci_move pv)))
+                  | OBest (Some m) -> Some ("best:" ^ uci_move m)
+                  | OBest None -> Some "best:0000"
+                  | OReady -> None) outs in
+              let m = "go " ^ String.concat " " toks in
+              (* the one-slot PV channel keeps only the latest unread iteration: the implementation may skip
+                 intermediate depths; what it prints must be a subsequence of the model's stream ending in
+                 the same final iteration and best move *)
+              let rec subseq a b = match a, b with
+                | [], _ -> true
+                | _, [] -> false
+                | x :: a', y :: b' -> if x = y then subseq a' b' else subseq a b' in
+              let otoks0 = (match ws o with "go" :: r -> r | r -> r) in
+              let last2 l = (match List.rev l with a :: b :: _ -> [b; a] | l' -> List.rev l') in
+              if not (subseq otoks0 toks && last2 otoks0 = last2 toks) then report_mismatch line (Printf.sprintf "line#%d: %s" i m);
+              if List.length otoks0 < List.length toks then bump "ucigo/skipped-depth-info";
+              bump "ucigo/go";
+              if hashmb > 0 then bump "ucigo/with-table";
+              (* C04 on the implementation *)
+              let otoks = ws o in
+              let bests = List.filter (fun t -> String.length t > 5 && String.sub t 0 5 = "best:") otoks in
+              if List.exists (fun t -> String.length t > 10 && String.sub t 0 10 = "DUPLICATE:") otoks then
+                report_spec ~key:"prop=C04" line (Printf.sprintf "line#%d: more than one bestmove for one go" i)
+              else if o = "NOANSWER" || bests = [] then
+                report_spec ~key:"prop=C04" line (Printf.sprintf "line#%d: go was not answered by a bestmove" i)
+              else begin
+                let bm = (let t = List.hd bests in String.sub t 5 (String.length t - 5)) in
+                match !last_pos with
+                | Some pl ->
+                  (match setup pl with
+                   | Some g ->
+                     let legal = spec_legal g.g_pos g.g_turn in
+                     if bm = "0000" then begin
+                       bump "ucigo/null-move";
+                       if legal <> [] then report_spec ~key:"prop=C04" line (Printf.sprintf "line#%d: bestmove 0000 although the position has legal moves" i)
+                     end else begin
+                       let s = List.map (fun ch -> n_of_int (Char.code ch)) (List.init (String.length bm) (String.get bm)) in
+                       if smove_of_str g s = None then report_spec ~key:"prop=C04" line (Printf.sprintf "line#%d: bestmove %s is not legal in the position last set up" i bm);
+                       if g.g_now <> [] then bump "ucigo/draw-claimable-root"
+                     end
+                   | None -> ())
+                | None -> ()
+              end)
+         | _ -> ())) lines
+  | _ -> failwith ("bad ucigo: " ^ short line)
+
+let handle (line : string) (kind : string) (args : string list) (obs : string) : unit =
+  match kind with
+  | "ucigo" -> handle_ucigo line args obs
+  | _ -> failwith ("unknown case kind: " ^ line)
